@@ -29,6 +29,11 @@ func FromSealed(data []byte) (Token, cid.Cid, error) {
 		return nil, cid.Undef, err
 	}
 
+	// the CID is only meaningful if data is the one canonical encoding of the token
+	if err := envelope.CheckCanonical(data); err != nil {
+		return nil, cid.Undef, err
+	}
+
 	id, err := envelope.CIDFromBytes(data)
 	if err != nil {
 		return nil, cid.Undef, err
@@ -43,6 +48,11 @@ func FromSealedReader(r io.Reader) (Token, cid.Cid, error) {
 
 	tkn, err := FromDagCborReader(cidReader)
 	if err != nil {
+		return nil, cid.Undef, err
+	}
+
+	// the CID is only meaningful if what was read is the one canonical encoding of the token
+	if err := cidReader.CheckCanonical(); err != nil {
 		return nil, cid.Undef, err
 	}
 
